@@ -78,7 +78,19 @@ DstCalls ==
   {[op |-> "time", days |-> d + dd, sod |-> 3600 * h + 3311, frac |-> <<>>, tz |-> TZs[z]] :
      d \in DstDays, dd \in {-1, 0, 1}, h \in 0..23, z \in DOMAIN TZs}
 
-Calls == CASE Family = "int" -> IntCalls [] Family = "real" -> RealCalls [] Family = "num" -> NumCalls
+\* conversions into ONE object, one after the other: what a conversion stores and reads back does not depend on
+\* what the object held before (a longer / shorter value, a special REAL, another C type's conversion)
+ReuseInts == {[op |-> "int2c", ty |-> p[1], x |-> p[2]] :
+                p \in {<<"long", I(0)>>, <<"long", I(127)>>, <<"long", I(128)>>, <<"long", I(-129)>>, <<"imax", IPow2(31)>>, <<"long", INeg(IPow2(63))>>,
+                        <<"imax", IDec(IPow2(63))>>, <<"umax", IDec(IPow2(64))>>, <<"ulong", I(255)>>, <<"umax", I(0)>>}}
+ReuseReals == {[op |-> "d2r", d |-> d] :
+                 d \in {DblOf(0, 0, "zero"), DblOf(1, 0, "zero"), DblOf(0, 2047, "zero"), DblOf(1, 2047, "zero"), DblOf(0, 2047, "top"),
+                         DblOf(0, 1023, "zero"), DblOf(0, 1020, "alt"), DblOf(0, 2046, "ones"), DblOf(0, 1, "zero"), DblOf(1, 1024, "top")}}
+Scripts(S, kind) == {[op |-> "script", kind |-> kind, steps |-> <<a, b>>] : a \in S, b \in S}
+                    \cup (IF Dense THEN {[op |-> "script", kind |-> kind, steps |-> <<a, b, c>>] : a \in S, b \in S, c \in S} ELSE {})
+ReuseCalls == Scripts(ReuseInts, "int") \cup Scripts(ReuseReals, "real")
+
+Calls == CASE Family = "reuse" -> ReuseCalls [] Family = "int" -> IntCalls [] Family = "real" -> RealCalls [] Family = "num" -> NumCalls
            [] Family = "oid" -> OidCalls [] Family = "time" -> TimeCalls \cup DstCalls
 
 \* ---- the state machine ----------------------------------------------------------
@@ -98,7 +110,7 @@ RefSound ==
 When(c, name) == IF c THEN {name} ELSE {}
 NaN(d) == d[1] % 128 = 127 /\ d[2] >= 240 /\ ~(d[2] = 240 /\ \A i \in 3..8 : d[i] = 0)
 CanonNaN == <<127, 248, 0, 0, 0, 0, 0, 0>>
-HFaults(c, ev) ==
+HFaults1(c, ev) ==
   CASE c.op = "int2c" ->
          When(ev.ret # 0, "conversion-failed")
          \cup When(ev.octets # IntContents(c.x), "contents-not-minimal-twos-complement")
@@ -134,6 +146,11 @@ HFaults(c, ev) ==
          \cup (IF InUTTextWindow(c.days) THEN When(ev.ut # UTText(c.days, c.sod), "utctime-text") ELSE {})
          \cup (IF InUTWindow(c.days) THEN When(~ev.ut_back_ok, "utctime-round-trip") ELSE {})
     [] OTHER -> {"unknown-op"}
+
+HFaults(c, ev) == IF c.op = "script"
+                  THEN When(Len(ev.steps) # Len(c.steps), "script-not-completed")
+                       \cup UNION {HFaults1(c.steps[i], ev.steps[i]) : i \in 1..(IF Len(ev.steps) < Len(c.steps) THEN Len(ev.steps) ELSE Len(c.steps))}
+                  ELSE HFaults1(c, ev)
 
 Scn == ndJsonDeserialize(IOEnv.VERIF_SCENARIOS)
 Log == ndJsonDeserialize(IOEnv.VERIF_TRACE)
